@@ -507,3 +507,21 @@ Proof.
   split; [apply reachable_final; vm_compute; reflexivity|].
   split; [vm_compute; reflexivity|]. split; [split; vm_compute; reflexivity|vm_compute; reflexivity].
 Qed.
+
+(* ------------------------------------------------------------------ a Dependency object used again (round 4) *)
+(* The model gives every submission fresh Dependency objects (`spawn_l`: the recorded statuses start at
+   WAIT, as `unsatisfied = len(dependencies)` assumes).  The code of 36bcb7f did not reset the recorded
+   status of an object that had been attached before: registration of one token dependency whose object
+   still says OK while the token is available - `check()` sees no change - leaves the job asleep with
+   unsatisfied = 1; with a fresh object (or the status reset, fixes/C06-5.diff) it is READY and goes to
+   its start *)
+Definition reg_stale (olds news : list dstatus) : jst :=
+  let r0 := w_st (w_ev (w_pc jst0 PSpawned) false) WAITING in
+  reg_l true true (w_cur (w_uns r0 (Z.of_nat (length news))) olds) news 0.
+
+Theorem reused_dependency_refuted :
+  (let r := reg_stale [DOK] [DOK] in
+   uns r = 1 /\ st r = WAITING /\ ev r = false /\ pc (fst (main_loop_l r)) = PAwaitReady) /\
+  (let r := reg_stale [DWAIT] [DOK] in
+   uns r = 0 /\ st r = READY /\ pc (fst (main_loop_l r)) = PExt ALockIn).
+Proof. cbv zeta. repeat split; vm_compute; reflexivity. Qed.
